@@ -14,10 +14,19 @@ package reorgdetector
 //@ ghost var lastDropTo int
 //@ ghost var dropCalls int
 
+// the notification itself (proved): a known subscriber is sent exactly the reorged block's number on its ReorgedBlock
+// channel and the call returns only after one value has been received from its ReorgProcessed channel - no path returns
+// without both (a send that may be skipped, or a return before the acknowledgement, leaves the caller dropping rows of
+// a subscriber that never rewound). The ghost observations the callers reason with are set here.
 //@ func (rd *ReorgDetector) notifySubscriber (rd, id, startingBlock)
-//@   trusted
-//@   modifies notifyCalls, lastNotified
-//@   ensures notifyCalls == old(notifyCalls) + 1 && lastNotified == startingBlock.Num
+//@   props C06
+//@   requires rd != nil && rd.log != nil && (has(rd.subscriptions, id) ==> rd.subscriptions[id] != nil)
+//@   modifies notifyCalls, lastNotified, region("chan:uint64.sent"), region("chan:uint64.nsent"), region("chan:bool.nrecv")
+//@   set notifyCalls := old(notifyCalls) + 1
+//@   set lastNotified := startingBlock.Num
+//@   ensures[observed] notifyCalls == old(notifyCalls) + 1 && lastNotified == startingBlock.Num
+//@   ensures[a-known-subscriber-is-told-the-block] has(rd.subscriptions, id) ==> nsent(rd.subscriptions[id].ReorgedBlock) == old(nsent(rd.subscriptions[id].ReorgedBlock)) + 1 && sentAt(rd.subscriptions[id].ReorgedBlock, old(nsent(rd.subscriptions[id].ReorgedBlock))) == startingBlock.Num
+//@   ensures[and-has-acknowledged-the-rewind] has(rd.subscriptions, id) ==> nrecv(rd.subscriptions[id].ReorgProcessed) == old(nrecv(rd.subscriptions[id].ReorgProcessed)) + 1
 
 //@ func (rd *ReorgDetector) removeTrackedBlockRange (rd, id, fromBlock, toBlock)
 //@   props C06
@@ -64,6 +73,8 @@ package reorgdetector
 //@   props C06
 //@   requires rd != nil && rd.client != nil && rd.log != nil && hdrs != nil && lastFinalisedBlock != nil && lastFinalisedBlock.Number != nil && 0 <= bigval(lastFinalisedBlock.Number) && bigval(lastFinalisedBlock.Number) < 18446744073709551616
 //@   requires notifyCalls == 0 && headersCache != nil
+// (Subscribe stores only subscription objects it has just allocated; the map is written nowhere else)
+//@   requires has(rd.subscriptions, id) ==> rd.subscriptions[id] != nil
 // (mentions the in-memory list's presence map before the loop, so that the loop frame knows the region removeRange writes)
 //@   requires hdrs.headers != nil && (has(hdrs.headers, 0) || !has(hdrs.headers, 0))
 //@   requires forall(n, int, headersCache[n] != nil ==> headersCache[n] == chainHdrAt(n))
